@@ -236,6 +236,34 @@ PROPS['C19'] = dict(
     level_text='Archetype check decided by compiler + solver: if any core template needs an operation outside the documented list, the strict build does not compile and that diagnostic is the violation; "with an exact field type all results are exact" is the conjunction of the equalities of C01-C08, C12, C15, re-proved over the reals with the strict archetype whose default-constructed values are unconstrained symbols (so reliance on value-initialisation being zero is exposed).',
     level_note='Compile-time part is exact for the instantiations listed; run-time part is bounded like the underlying properties; trusted: g++, libz3, sym.h (strict build).')
 
+_SAN = dict(always_sanitize=True)
+_MEMKINDS = ['stl-assert', 'asan', 'signal', 'divzero']
+PROPS['C09'] = dict(
+    engine='A', technique='symbolic-scalar execution of the real templates under checked STL + AddressSanitizer + UBSan on every solver-enumerated path; reachability of a zero divisor decided by the solver at every scalar division',
+    only_kinds=_MEMKINDS,
+    harnesses=[
+        dict(_SAN, name='C09_eval', src='C02_eval.cpp', defs=dict(quick=['-DMAXN=4', '-DMAXO=2', '-DHISTN=3'], thorough=['-DMAXN=5', '-DMAXO=3', '-DHISTN=3']), functions=['Spline::operator()', 'Spline::findInterval', 'Support iterators/accessors']),
+        dict(_SAN, name='C09_arith', src='C03_arith.cpp', defs=dict(quick=['-DMAXN=4', '-DMAXO=2', '-DLCN=3'], thorough=['-DMAXN=5', '-DMAXO=2', '-DLCN=4']), functions=['Spline arithmetic', 'linearCombination', 'internal::add/changearraysize']),
+        dict(_SAN, name='C09_primops', src='C04_primops.cpp', defs=dict(quick=['-DMAXN=3', '-DMAXO=3', '-DMAXD=4'], thorough=['-DMAXN=4', '-DMAXO=4', '-DMAXD=5']), functions=['Derivative<n>::transform', 'Position<n>::transform']),
+        dict(_SAN, name='C09_generator', src='C01_generator.cpp', chunk=1, defs=dict(quick=['-DMAXP=2', '-DEXTRA=4'], thorough=['-DMAXP=3', '-DEXTRA=4']), functions=['BSplineGenerator', 'generateBSplines<p>']),
+        dict(_SAN, name='C09_grids', src='C08_grids.cpp', pre_includes=['symt/stub'], defs=dict(quick=['-DMAXN=3'], thorough=['-DMAXN=4']), functions=['all multi-spline entry points incl. throwing paths (unwinding)']),
+        dict(_SAN, name='C09_interp', src='C12_interp.cpp', defs=dict(quick=['-DMAXO=3', '-DMAXNODES=3', '-DFULLSEQ_MAXO=2'], thorough=['-DMAXO=4', '-DMAXNODES=4', '-DFULLSEQ_MAXO=3']), functions=['interpolation::interpolate']),
+        dict(_SAN, name='C09_quadrature', src='C17_quadrature.cpp', pre_includes=['symt/stub'], defs=dict(quick=['-DMAXQ=2', '-DMAXO=2', '-DMAXN=3'], thorough=['-DMAXQ=3', '-DMAXO=2', '-DMAXN=4']), functions=['integration::integrate<n>']),
+        dict(_SAN, name='C09_predicates', src='C15_predicates.cpp', defs=dict(quick=['-DMAXN=3', '-DMAXO=2'], thorough=['-DMAXN=4', '-DMAXO=2']), functions=['Spline::isZero/checkOverlap/operator==']),
+        dict(_SAN, name='C09_invariants', src='C10_invariants.cpp', defs=dict(quick=['-DMAXN=2', '-DSEQLEN=2'], thorough=['-DMAXN=3', '-DSEQLEN=2']), functions=['copy/move/self-move/swap, throwing calls, reuse of moved-from objects']),
+        dict(_SAN, name='C09_value', src='C14_value.cpp', defs=dict(quick=['-DMAXN=2'], thorough=['-DMAXN=3']), functions=['operation histories incl. throwing in-place updates']),
+    ],
+    generated=[dict(mode='c05', ntu=16, env=dict(quick={'C05_L2_QUICK': '48'}), template=dict(_SAN, defs=dict(quick=['-DMAXN=3', '-DMAXO=2', '-DFO=1'], thorough=['-DMAXN=4', '-DMAXO=2', '-DFO=1']), functions=['every operator transform incl. SplineOperator with every factor placement'])),
+               dict(mode='c06', ntu=8, template=dict(_SAN, defs=dict(quick=['-DMAXN=3', '-DMAXO=2', '-DFO=1'], thorough=['-DMAXN=4', '-DMAXO=3', '-DFO=1']), functions=['BilinearForm::evaluate/evaluateInterval'])),
+               dict(mode='c07', ntu=8, template=dict(_SAN, defs=dict(quick=['-DMAXN=3', '-DMAXO=2', '-DFO=1'], thorough=['-DMAXN=4', '-DMAXO=3', '-DFO=1']), functions=['LinearForm::evaluate/evaluateInterval']))],
+    bounds=dict(quick='layer 2+3: the harnesses of C01-C08, C10, C12, C14, C15, C17 at reduced bounds (grids <=3-4 points, orders <=2-3, every window placement, every solver-feasible value-dependent path) built with -D_GLIBCXX_ASSERTIONS -D_GLIBCXX_DEBUG -fsanitize=undefined (quick) plus -fsanitize=address (thorough); every scalar division checked for a reachable zero divisor. Layer 1 (all 2^64 index values of the checked accessors, byte-level bounds of the compiled code) is served by Engine B - see C13 evidence and the engine_b section here',
+                thorough='the same harnesses one size larger'),
+    outside='allocation failure, stack exhaustion, call sequences that violate documented preconditions (unchecked operator[] with out-of-range index), orders/grids above the bounds; uninitialised reads are only caught where they change a checked result (see C19 for default-constructed scalars)',
+    assumptions=['grid points strictly increasing reals', 'exact real arithmetic for values (indices, sizes, iterator arithmetic are the real machine integers of the compiled code)'],
+    trusted=A_TRUST + ['libstdc++ debug assertions', 'AddressSanitizer/UBSan runtime of g++ 12'],
+    level_text='Bounded symbolic exploration under sanitizers: because every feasible value-dependent path of every enumerated structure is executed (the solver decides which paths exist), an out-of-bounds index, use after free, signed overflow or null dereference on any of them is hit and reported with a model of the path; division by zero is a solver query at each division. Functional obligations failing in these builds are attributed to their own properties.',
+    level_note='Sanitizers observe the concrete memory behaviour of each symbolic path; indices as 64-bit symbolic values are Engine B\'s part; trusted: g++ sanitizer runtimes, libz3, sym.h/harness.h.')
+
 _NOT_BUILT = 'check not built yet in this round (planned, see DESIGN.md section 5)'
 NOT_APPLICABLE = {
     'C16': 'floating-point forward-error bound: bit-precise FP or (1+delta) NRA encodings of even the smallest instance return unknown/timeout on every installed solver (DESIGN.md section 7)',
